@@ -20,7 +20,7 @@ class FS:
     def __init__(self, it, ctx, max_limit):
         self.it, self.files, self.log = it, {}, []
         self.limit = ctx.sym_int('fs_write_limit', 0, max_limit)
-        self.written = 0; self.meta = 0; self.snapshots = []
+        self.written = 0; self.meta = 0; self.snapshots = []; self.pos = {}
     def snap(self, dest):
         f = self.files.get(dest)
         self.snapshots.append(None if f is None else (f[0], f[1]))
@@ -36,7 +36,12 @@ class FS:
         elif self.it.ctx.branch(room <= 0): self.log.append(('write %s -> ENOSPC' % n, False)); return None
         else: k = room
         tag, length = self.files[path]
-        self.files[path] = (tag, length + k); self.written = self.written + k
+        if tag == 'new': self.files[path] = (tag, length + k)
+        else:
+            # a file opened WITHOUT truncation: the new bytes overwrite the old content from offset 0; whatever lies behind them stays
+            pos = self.pos.get(path, 0) + k; self.pos[path] = pos
+            if self.it.ctx.branch(pos >= length): self.files[path] = ('new', pos)
+        self.written = self.written + k
         self.log.append(('write %s -> %s' % (n, k), True))
         return k
 class FileObj:
@@ -75,6 +80,17 @@ class BufW:
             return OK([])
         self.buf += n
         return OK([])
+    def write(self, it, data):
+        """std's BufWriter::write: one call; a buffer of at least the capacity goes to the file in ONE write(), which may be partial"""
+        n = len(data)
+        if self.buf + n > self.cap:
+            r = self.flush_buf(it)
+            if r.variant == 1: return r
+        if n >= self.cap:
+            k = it.fs.file_write(self.f.path, n)
+            return io_err('ENOSPC') if k is None else OK(k)
+        self.buf += n
+        return OK(n)
     def drop_hook(self, it):
         self.flush_buf(it)      # error discarded, as documented for BufWriter's Drop
 
@@ -121,11 +137,41 @@ def install(it):
         if not it.fs.meta_ok('create'): return io_err('create failed')
         it.fs.files[path] = ('new', 0); it.fs.snap(it.fs.dest); return OK(FileObj(path))
     m(r'std::fs::File::create::<.*>', create)
+    # OpenOptions: the flags decide whether an existing file is emptied; a file that is not emptied keeps its old bytes behind the new ones
+    class OpenOpts:
+        def __init__(self): self.f = {}
+    m(r'std::fs::OpenOptions::new', lambda it: OpenOpts())
+    for fl in ('read', 'write', 'append', 'truncate', 'create', 'create_new'):
+        m(r'std::fs::OpenOptions::%s$' % fl, (lambda fl_: (lambda it, o, v: (deref_all(o).f.__setitem__(fl_, v), o)[1]))(fl))
+    def oo_open(it, o, p):
+        path = pstr(p); f = deref_all(o).f
+        if f.get('append'): raise Unsupported('OpenOptions::append')
+        if not it.fs.meta_ok('create'): return io_err('open failed')
+        if path in it.fs.files:
+            if f.get('create_new'): return io_err('EEXIST')
+            if f.get('truncate'): it.fs.files[path] = ('new', 0)
+            else: it.fs.pos[path] = 0
+        else:
+            if not (f.get('create') or f.get('create_new')): return io_err('ENOENT')
+            it.fs.files[path] = ('new', 0)
+        it.fs.snap(it.fs.dest); return OK(FileObj(path))
+    m(r'std::fs::OpenOptions::open::<.*>', oo_open)
+    m(r'std::io::BufWriter::<std::fs::File>::(get_ref|get_mut)', lambda it, w: Ref(Box_(deref_all(w).f)))
+    m(r'std::fs::File::(sync_all|sync_data)', lambda it, f: OK([]) if it.fs.meta_ok('sync') else io_err('sync failed'))
+    def set_len(it, f, n):
+        path = deref_all(f).path
+        if not isinstance(n, int): raise Unsupported('symbolic File::set_len')
+        if n == 0: it.fs.files[path] = ('new', 0); it.fs.pos[path] = 0; return OK([])
+        raise Unsupported('File::set_len(%r)' % n)
+    m(r'std::fs::File::set_len', set_len)
     m(r'std::io::BufWriter::<std::fs::File>::new', lambda it, f: BufW(f))
     m(r'std::io::BufWriter::<std::fs::File>::with_capacity', lambda it, cap, f: BufW(f, cap))
     def bw_write_all(it, w, data):
         r = deref_all(w).write_all(it, deref_all(data)); it.fs.snap(it.fs.dest); return r
     m(r'<(&mut )*std::io::BufWriter<std::fs::File> as std::io::Write>::write_all', bw_write_all)
+    def bw_write(it, w, data):
+        r = deref_all(w).write(it, deref_all(data)); it.fs.snap(it.fs.dest); return r
+    m(r'<(&mut )*std::io::BufWriter<std::fs::File> as std::io::Write>::write', bw_write)
     m(r'<(&mut )*std::io::BufWriter<std::fs::File> as std::io::Write>::flush', lambda it, w: deref_all(w).flush_buf(it))
     def rename(it, a, b):
         if pstr(a) not in it.fs.files: return io_err('ENOENT')
